@@ -241,7 +241,7 @@ def utc_offset_minutes(offset_minutes: Optional[int]) -> Optional[tzoffset]:
     # TODO: We need a way to handle different ways of interpretating the timezone offset.
 
     """
-    if offset_minutes:
+    if offset_minutes is not None:
         return tzoffset(name=None, offset=-(offset_minutes * 60))
     else:
         return None
